@@ -196,6 +196,9 @@ def classify(diags, raw, sm, woven_src):
                 if e and e["meta"].get("clause"):
                     f["clause"] = e["meta"]["clause"]
         for s in allspans:
+            if s["file_name"].endswith("verif_prelude.rs") and kind == "precondition" and not s.get("is_primary"):
+                # precondition of a verified R-std helper (closure precondition / no overflow): a safety obligation
+                f["safety"] = True
             if s["file_name"].startswith("/home/runner") or "/vstd/" in s["file_name"]:
                 f["labels"].append("vstd:" + (s.get("label") or ""))
                 if kind == "precondition":
@@ -300,7 +303,7 @@ def run_verus(woven, extra, timeout=1800):
     return cmd, out, r.stdout, r.stderr, time.time() - t0
 
 
-def witness_search(prop, repo, rundir, seed, timeout=600):
+def witness_search(prop, repo, rundir, seed, timeout=600, quick=False):
     """bounded differential check of the real code against executable restatements of the property
     (tools/replay).  Returns dict(cases, failures=[...], error)"""
     crate = os.path.join(rundir, "replay-crate")
@@ -316,7 +319,7 @@ def witness_search(prop, repo, rundir, seed, timeout=600):
     if b.returncode != 0:
         return {"cases": 0, "failures": [], "error": "replay tool does not build against this tree: " + b.stderr[-400:]}
     try:
-        r = subprocess.run([os.path.join(WORK, "replay-target", "release", "replay"), "witness", prop, str(seed)], capture_output=True, text=True, timeout=timeout)
+        r = subprocess.run([os.path.join(WORK, "replay-target", "release", "replay"), "witness", prop, str(seed)] + (["quick"] if quick else []), capture_output=True, text=True, timeout=timeout)
     except subprocess.TimeoutExpired:
         return {"cases": 0, "failures": [], "error": "witness search timed out"}
     res = {"cases": 0, "failures": [], "error": None}
@@ -519,8 +522,10 @@ def decide(prop, tier, seed, a, rundir, woven, t0):
         else:
             print("VIOLATION property=%s replay=%s no-failing-input-found" % (prop, rp))
         return 1
-    if tier == "thorough" and prop in WITNESS_PROPS:
-        ws = witness_search(prop, a.repo, rundir, seed)
+    if prop in WITNESS_PROPS:
+        # bounded differential check (labelled bounded, never counted as proved): always run, a thinned slice
+        # of the families in the quick tier, the full families in the thorough tier
+        ws = witness_search(prop, a.repo, rundir, seed, quick=(tier != "thorough"))
         if ws["failures"]:
             rp = write_replay(prop, [], cmd, diags, ws, note="all obligations discharged, but the bounded differential check found a failing input on the real code")
             w = ws["failures"][0]
